@@ -188,7 +188,7 @@ MANIFEST_TEXT = {
                 "specs x (words of an independently enumerated language, single-edit near misses).",
         "note": "no contract-level proof of the table-driven Earley parser is within reach of the VC generator; bound: words up to 5 "
                 "atoms (11 for bit specs); parse calls over 20 s are left to C06.",
-        "technique": "bounded run-time contract check of the real parser against an independent derivation checker",
+        "technique": "bounded run-time contract check of the real parser against an independent derivation checker; one side lemma (_collapse) by contract-based deductive verification",
     },
     "C05": {
         "text": "Bounded stand-in: for fuzzed trees of 29 specs parse(serialise(t)) yields a tree with identical serialisation and "
